@@ -3,6 +3,7 @@ package main
 import (
 	"fmt"
 	"strings"
+	"unicode"
 
 	"verif/harness/internal/prng"
 	"verif/harness/internal/proto"
@@ -11,13 +12,47 @@ import (
 // small pools on purpose: the same name at several depths, names that look like path syntax,
 // names equal to the words of the JSONPath prefix.
 var keyPool = []string{"name", "name", "user", "user", "id", "id", "a", "b", "a", "b", "body", "request", "response",
-	"items", "x", "é", "名前", "a.b", "b[]", "[]", "user.name", "", "q\"t", "back\\slash", "😀", "$"}
+	"items", "x", "é", "名前", "a.b", "b[]", "[]", "user.name", "", "q\"t", "back\\slash", "😀", "$",
+	// the same names in another letter case: JSON member names are case sensitive, these are DIFFERENT paths
+	"Name", "NAME", "User", "USER", "ID", "Id", "A", "B", "Body", "Items", "sku", "SKU", "É", "X"}
 
 var strPool = []string{"top-secret", "bob", "", "true", "null", "10.00", "Ünï", "名", "a b", "line\nbreak", "tab\there",
 	"q\"uote", "sl/ash", "back\\", "12345", "x"}
 
 var numPool = []string{"0", "1", "10", "10.9", "10.999", "0.125", "0.375", "0.625", "1.005", "2.675", "0.005", "0.135", "-0", "-0.001",
 	"-1.5", "81.101", "123456789012345", "0.000001", "99.995", "1234567.891", "-7", "3.14159"}
+
+// caseVariant changes the letter case of one letter, of the first letter, or of all letters.
+func caseVariant(r *prng.R, s string) string {
+	rs := []rune(s)
+	var idx []int
+	for i, c := range rs {
+		if unicode.IsLetter(c) && (unicode.ToUpper(c) != c || unicode.ToLower(c) != c) {
+			idx = append(idx, i)
+		}
+	}
+	if len(idx) == 0 {
+		return s
+	}
+	flip := func(i int) {
+		if unicode.IsUpper(rs[i]) {
+			rs[i] = unicode.ToLower(rs[i])
+		} else {
+			rs[i] = unicode.ToUpper(rs[i])
+		}
+	}
+	switch r.Intn(3) {
+	case 0:
+		flip(prng.Pick(r, idx))
+	case 1:
+		flip(idx[len(idx)-1])
+	default:
+		for _, i := range idx {
+			flip(i)
+		}
+	}
+	return string(rs)
+}
 
 func needsEscape(s string) bool {
 	for _, c := range s {
@@ -106,6 +141,10 @@ func (g *gctx) val(depth int, cursor string, dupOK bool) *jv {
 		k := prng.Pick(r, keyPool)
 		if g.plain {
 			k = prng.Pick(r, plainKeys)
+		}
+		if len(o.keys) > 0 && r.Chance(20) {
+			// a sibling whose name differs from an existing one only in letter case
+			k = caseVariant(r, prng.Pick(r, o.keys))
 		}
 		if used[k] && !dupOK {
 			continue
@@ -200,7 +239,7 @@ func text(r *prng.R, v *jv, loose bool) string {
 	return b.String()
 }
 
-var junkEx = []string{"", "qui", ".", "[]", "$", "$.request.body", "$.response.body", "$.request.bodyguard.name", "$.request.body.",
+var junkEx = []string{"$.REQUEST.BODY.name", "$.Request.Body.user.name", ".NAME", ".User.Name", "$.response.body.ID", "", "qui", ".", "[]", "$", "$.request.body", "$.response.body", "$.request.bodyguard.name", "$.request.body.",
 	"$.request.body[]", ".name", ".id", "name", "$.request.headers[\"x\"]", "$.request.body.user.name", "$.response.body.user.name",
 	".user.name", "$.request.body.name", "$.request.body.id", ".a", ".b", ".a.b", "$.request.body.a.b", "$.response.body.a"}
 
@@ -232,7 +271,17 @@ func genEx(r *prng.R, side string, cursors []string) []string {
 	var ex []string
 	for i := 0; i < n; i++ {
 		c := prng.Pick(r, cursors)
-		switch r.Intn(13) {
+		switch r.Intn(16) {
+		case 13, 14:
+			// a real position in another letter case (a DIFFERENT path): must exclude nothing
+			ex = append(ex, note(side, caseVariant(r, c)))
+		case 15:
+			// right path, body root in another letter case: not an exclusion of this body at all
+			pre := note(side, "")
+			if pre == "" {
+				pre = "$.request.body"
+			}
+			ex = append(ex, caseVariant(r, pre)+c)
 		case 0, 1, 2, 3:
 			ex = append(ex, note(side, c)) // a real position, right notation
 		case 4, 5:
@@ -266,6 +315,66 @@ func genEx(r *prng.R, side string, cursors []string) []string {
 	return ex
 }
 
+// sameShape copies a document with fresh primitive values (same paths in both bodies of a transaction).
+func (g *gctx) sameShape(v *jv) *jv {
+	switch v.k {
+	case kArr:
+		a := &jv{k: kArr}
+		for _, x := range v.a {
+			a.a = append(a.a, g.sameShape(x))
+		}
+		return a
+	case kObj:
+		o := &jv{k: kObj, keys: append([]string{}, v.keys...)}
+		for _, x := range v.vals {
+			o.vals = append(o.vals, g.sameShape(x))
+		}
+		return o
+	}
+	return g.leaf()
+}
+
+// genTxn: one transaction with BOTH bodies through one collector; the two bodies share field paths, the
+// request-side and response-side exclusion sets differ (and are interleaved in one list).
+func genTxn(r *prng.R) string {
+	g := &gctx{r: r}
+	reqV := g.val(r.Range(1, 3), "", false)
+	reqCursors := g.cursors
+	var respV *jv
+	respCursors := reqCursors
+	switch r.Intn(10) {
+	case 0, 1, 2, 3, 4, 5:
+		respV = g.sameShape(reqV)
+	default:
+		g2 := &gctx{r: r}
+		respV = g2.val(r.Range(1, 3), "", false)
+		respCursors = g2.cursors
+	}
+	reqDoc, respDoc := text(r, reqV, r.Chance(20)), text(r, respV, r.Chance(20))
+	switch r.Intn(20) {
+	case 0:
+		reqDoc = prng.Pick(r, malformed)
+	case 1:
+		respDoc = prng.Pick(r, malformed)
+	case 2:
+		reqDoc = ""
+	}
+	var ex []string
+	switch r.Intn(4) {
+	case 0:
+		ex = genEx(r, "req", reqCursors) // request-side exclusions only: the response body must be fully hashed
+	case 1:
+		ex = genEx(r, "resp", respCursors)
+	default:
+		ex = append(genEx(r, "req", reqCursors), genEx(r, "resp", respCursors)...)
+		prng.Shuffle(r, ex)
+	}
+	if len(ex) == 0 {
+		ex = []string{note("req", prng.Pick(r, reqCursors))}
+	}
+	return txnLine(ex, reqDoc, respDoc)
+}
+
 func pickSide(r *prng.R) string {
 	switch x := r.Intn(10); {
 	case x < 4:
@@ -295,6 +404,10 @@ func gen(r *prng.R, f proto.Flags, emit func(proto.Case)) {
 		rr := r.Fork()
 		side := pickSide(rr)
 		x := rr.Intn(100)
+		if rr.Chance(20) {
+			emit(proto.Case{ID: next("x"), Ops: []string{genTxn(rr)}})
+			continue
+		}
 		switch {
 		case x < 4:
 			// malformed stream 1: not JSON at all
@@ -332,21 +445,21 @@ func gen(r *prng.R, f proto.Flags, emit func(proto.Case)) {
 
 // docs(d): every document of depth <= d over the key names a, b (objects with any subset of the two
 // keys, arrays of length 0 or 1, one kind of primitive).
-func docs(d int) []*jv {
+func docs(d int, k1, k2 string) []*jv {
 	out := []*jv{{k: kStr}}
 	if d == 0 {
 		return out
 	}
-	sub := docs(d - 1)
+	sub := docs(d-1, k1, k2)
 	out = append(out, &jv{k: kArr}, &jv{k: kObj})
 	for _, x := range sub {
 		out = append(out, &jv{k: kArr, a: []*jv{x}})
-		out = append(out, &jv{k: kObj, keys: []string{"a"}, vals: []*jv{x}})
-		out = append(out, &jv{k: kObj, keys: []string{"b"}, vals: []*jv{x}})
+		out = append(out, &jv{k: kObj, keys: []string{k1}, vals: []*jv{x}})
+		out = append(out, &jv{k: kObj, keys: []string{k2}, vals: []*jv{x}})
 	}
 	for _, x := range sub {
 		for _, y := range sub {
-			out = append(out, &jv{k: kObj, keys: []string{"a", "b"}, vals: []*jv{x, y}})
+			out = append(out, &jv{k: kObj, keys: []string{k1, k2}, vals: []*jv{x, y}})
 		}
 	}
 	return out
@@ -387,8 +500,8 @@ func enumText(v *jv) string {
 	return b.String()
 }
 
-func enumCursors(maxLen int) []string {
-	segs := []string{".a", ".b", "[]"}
+func enumCursors(maxLen int, k1, k2 string) []string {
+	segs := []string{"." + k1, "." + k2, "[]"}
 	out := []string{""}
 	level := []string{""}
 	for l := 0; l < maxLen; l++ {
@@ -405,9 +518,31 @@ func enumCursors(maxLen int) []string {
 }
 
 func enumerate(emit func(proto.Case), next func(string) string) {
-	d3 := docs(3)
-	d2 := docs(2)
-	cs := enumCursors(3)
+	enumerateNames(emit, next, "a", "b")
+	// the same scope over two names that differ ONLY in letter case
+	enumerateNames(emit, next, "a", "A")
+	// transactions: every pair of depth<=1 bodies x every (request exclusion, response exclusion) of <= 2 segments
+	for _, names := range [][2]string{{"a", "b"}, {"a", "A"}} {
+		d1 := docs(1, names[0], names[1])
+		cs := enumCursors(2, names[0], names[1])
+		for _, rq := range d1 {
+			for _, rs := range d1 {
+				for _, c1 := range cs {
+					ops := make([]string, 0, len(cs))
+					for _, c2 := range cs {
+						ops = append(ops, txnLine([]string{note("req", c1), note("resp", c2)}, enumText(rq), enumText(rs)))
+					}
+					emit(proto.Case{ID: next("y"), Ops: ops})
+				}
+			}
+		}
+	}
+}
+
+func enumerateNames(emit func(proto.Case), next func(string) string, k1, k2 string) {
+	d3 := docs(3, k1, k2)
+	d2 := docs(2, k1, k2)
+	cs := enumCursors(3, k1, k2)
 	t3 := make([]string, len(d3))
 	for i, v := range d3 {
 		t3[i] = enumText(v)
